@@ -193,6 +193,15 @@ func run(e *core.Env) {
 	if tp.Chance(1, 6) || opts.LongStagger {
 		rounds = 2
 	}
+	// Wave 16: a mesh that has been up for a quarter of an hour and more. Routers announce
+	// themselves every five minutes, routes carry an expiry and every router cleans its table once
+	// a minute: what was learned in the first round has to be kept alive by the later ones. The
+	// mesh is judged at a seeded moment between two rounds, not right after one.
+	longUptime := !opts.LongStagger && n <= 9 && tp.Chance(1, 10)
+	if longUptime {
+		rounds = 3 + tp.Intn(3)
+		e.Probe("mesh_up_for_a_quarter_of_an_hour_or_more")
+	}
 	totalSteps := 0
 	for r := 0; r < rounds; r++ {
 		steps := 0
@@ -212,6 +221,12 @@ func run(e *core.Env) {
 		if floodViolation != "" {
 			e.Fail(floodViolation, "%s", floodDetail)
 		}
+	}
+	if longUptime {
+		totalSteps += ms.Net.RunFor(tp, time.Duration(10+tp.Intn(280))*time.Second, 60000)
+		simnet.Wait()
+		totalSteps += ms.Net.DrainFIFO(tp, 60000)
+		ms.CheckPanics("worker-panic")
 	}
 	e.Ev("drained", uint64(totalSteps), uint64(len(insts)))
 	for u := 0; u < n; u++ {
